@@ -34,7 +34,20 @@ def entry_points():
     def jolt(a, b):
         out = gjk.gjk_distance_jolt(a, b)
         return out[:3] if out[0] != MAXF else (0.0,)          # the documented MAX_FLOAT clip
+    def selfcol(a, b):
+        """self_collision.detect / detect_any on a hierarchy of the two colliders (whitelist of each: itself)"""
+        from pytransform3d.transform_manager import TransformManager
+        from distance3d.broad_phase import BoundingVolumeHierarchy
+        from distance3d import self_collision
+        bvh = BoundingVolumeHierarchy(TransformManager(), "world")
+        bvh.add_collider("a", a)
+        if b is not a:
+            bvh.add_collider("b", b)
+        bvh.self_collision_whitelists_.update({"a": ["a"], "b": ["b"]})
+        c = self_collision.detect(bvh)
+        return (bool(self_collision.detect_any(bvh)),) + tuple(bool(v) for v in c.values())
     return {
+        "self_collision.detect": (selfcol, True),
         "gjk_distance_jolt": (jolt, True),
         "gjk_intersection_jolt": (lambda a, b: gjk.gjk_intersection_jolt(a, b), True),
         "gjk_intersection_libccd": (lambda a, b: gjk.gjk_intersection_libccd(a, b), True),
@@ -61,7 +74,9 @@ NEEDLES = [   # aspect ratio 1e4 at unit 0.01: sizes 0.01 .. 100
 
 
 def one(rid, fname, call, proxy, ca, cb, smooth):
-    rec = {"id": rid, "kind": "term", "fn": fname, "exc": "none", "finite": True, "supportCalls": 0, "smooth": bool(smooth)}
+    rec = {"id": rid, "kind": "term", "fn": fname, "exc": "none", "finite": True, "supportCalls": 0, "smooth": bool(smooth), "simplexRows": 4}
+    NW.install_observers()
+    NW._OBS["rows"] = 4
     if proxy:
         ca = NW.Proxy.wrap(ca)
         cb = ca if cb is None else NW.Proxy.wrap(cb)
@@ -79,6 +94,8 @@ def one(rid, fname, call, proxy, ca, cb, smooth):
         rec["exc"] = type(e).__name__
     if proxy:
         rec["supportCalls"] = int(max(ca.calls, cb.calls))
+    if fname == "epa":
+        rec["simplexRows"] = int(NW._OBS["rows"])        # valid rows of the GJK simplex handed to EPA (observed)
     return rec
 
 
@@ -95,7 +112,7 @@ def gen(tier, seed):
         for fname, (call, proxy) in eps.items():
             if names is not None and fname not in names:
                 continue
-            clsA, clsB = rng.choice(A.classes()), rng.choice(B.classes())
+            clsA, clsB = A.cls or rng.choice(A.classes()), B.cls or rng.choice(B.classes())
             if A.spec.get("name") in ("point", "segment", "triangle", "square"):
                 clsA = "ConvexHullVertices"
             if B.spec.get("name") in ("point", "segment", "triangle", "square"):
@@ -112,6 +129,13 @@ def gen(tier, seed):
         drive(A, B, lift)
         if rng.random() < 0.15:
             drive(A, A, lift, same=True)          # the identical object passed twice
+    for A, B0 in NW.gen_scenes(rng, 70 if tier == "quick" else 1500):
+        # nearly touching pairs: a gap (or overlap) of 1e-12 .. 1e-7 along a generic direction - the progress tests of the
+        # unbounded loops compare quantities of this size with EPSILON-like thresholds
+        lift = NW.random_lift(rng, A, B0, rng.choice(("rigid", "rigid", "scale", "id")))
+        B, _ = NW.graze(A, B0, rng, 10 ** rng.uniform(-12, -7) / lift[0], ks=(1, 1, 1, -1, 0))
+        drive(A, B, lift, names=("self_collision.detect", "gjk_distance_jolt", "gjk_intersection_jolt", "gjk_intersection_libccd", "gjk_distance_original",
+                                 "gjk_nesterov_accelerated", "mpr_intersection", "mpr_penetration", "epa"))
     poly, rnd = NW.spec_pool()
     for _ in range(60 if tier == "quick" else 1500):
         # zero-volume colliders against anything, touching / coincident / nested placements
@@ -137,6 +161,9 @@ def gen(tier, seed):
             rid = f"t{n}"
             recs.append(one(rid, fname, call, proxy, ca, cb, True))
             meta[rid] = {"A": sa, "B": sb, "fn": fname, "needle": True, "off": off.tolist()}
+    # pinned input of the known finding epa:incomplete-gjk-simplex (deterministic): the same cube hull passed twice
+    A = NW.Body({"kind": "hull", "V": S.HULLS["cube"]}, [[0, 1, 0], [0, 0, 1], [1, 0, 0]], [-2, 3, 2], 0, "ConvexHullVertices")
+    drive(A, A, NW.IDENT, same=True, names=("epa",))
     return recs, meta
 
 
@@ -163,7 +190,11 @@ def run(tier, seed):
     rejects = trace.judge(recs, "narrow", "NarrowTrace", "NarrowTrace.cfg", "c19", res)
     for rid, clauses in sorted(rejects.items(), key=lambda kv: int(kv[0][1:])):
         m, r = meta[rid], byid[rid]
-        key = f"{m['fn']}:{r['exc']}:{'+'.join(sorted(clauses))}:{chash(m)}"
+        if "ZONE_IncompleteSimplex" in clauses:
+            clauses = clauses - {"ZONE_IncompleteSimplex"}
+            key = "epa:incomplete-gjk-simplex"
+        else:
+            key = f"{m['fn']}:{r['exc']}:{'+'.join(sorted(clauses))}:{chash(m)}"
         res.violation(key, "+".join(sorted(clauses)), f"{m['fn']} exc={r['exc']} finite={r['finite']} calls={r['supportCalls']} scene={str(m)[:400]}",
                       {"meta": m, "record": r, "seed": seed})
     res.coverage["evaluations"] = len(recs)
@@ -171,8 +202,8 @@ def run(tier, seed):
     res.coverage["exceptions"] = {e: sum(1 for r in recs if r["exc"] == e) for e in {r["exc"] for r in recs}}
     res.coverage["distinct_nontrivial"] = len({chash(m) for m in meta.values()})
     res.coverage["rule"] = ("every narrow-phase entry point (four GJK flavours incl. Nesterov with / without acceleration, EPA after GJK, "
-                            "MPR intersection and penetration) on the scenes of C01 (incl. touching, nested, coincident), the identical "
-                            "object passed twice, zero-volume colliders (point, segment, planar hulls, disk, ellipse), needles and plates "
+                            "MPR intersection and penetration, self_collision.detect / detect_any on a two-collider hierarchy) on the scenes of C01 (incl. touching, nested, coincident), the identical "
+                            "object passed twice, nearly touching pairs (gaps 1e-12 .. 1e-7 in generic directions), zero-volume colliders (point, segment, planar hulls, disk, ellipse), needles and plates "
                             "of aspect 1e4; support evaluations counted by a proxy, wall-clock watchdog of 20 s per call")
     res.coverage["samples"] = [meta[recs[0]["id"]], recs[0], recs[-1]]
     res.assumptions = ["exhaustive termination of the exact design is model-checked where explorer models exist (C18, C03 MeshClimb); "
